@@ -64,6 +64,9 @@ def main():
         else:
             sh("git apply %s/patch.diff" % src, cwd=wt)
             meta["steps"]["apply"] = "clean"
+        # the patch as it applies to this HEAD (context may differ from the seeder's after a 3-way merge)
+        applied = "/tmp/mut-%s.applied.diff" % sid
+        sh("git diff > %s" % applied, cwd=wt)
         dirs = pkg_dirs(patch)
         meta["touched_packages"] = dirs
         # package tests with and without
@@ -112,9 +115,9 @@ def main():
             run = "^(%s)$" % "|".join(tests) if tests else "."
             rc1, out1 = sh("go test -vet=off -count=1 -run '%s' %s 2>&1 | tail -30" % (run, rel), cwd=mod)
             # without the patch
-            sh("git apply -R %s/patch.diff" % src, cwd=wt)
+            sh("git apply -R %s" % applied, cwd=wt)
             rc0, out0 = sh("go test -vet=off -count=1 -run '%s' %s 2>&1 | tail -30" % (run, rel), cwd=mod)
-            sh("git apply %s/patch.diff" % src, cwd=wt)
+            sh("git apply %s" % applied, cwd=wt)
             os.remove(dst)
             demo_res[f] = dict(dir=target, with_patch_rc=rc1, without_patch_rc=rc0, with_tail=out1[-400:], without_tail=out0[-300:])
         meta["steps"]["demo"] = demo_res
@@ -150,6 +153,12 @@ def finish(sid, src, meta, demos):
     dst = os.path.join(ROOT, "seeded", sid)
     os.makedirs(dst, exist_ok=True)
     shutil.copy(os.path.join(src, "patch.diff"), dst)
+    applied = "/tmp/mut-%s.applied.diff" % sid
+    if os.path.exists(applied) and os.path.getsize(applied) > 0:
+        if open(applied).read() != open(os.path.join(src, "patch.diff")).read():
+            shutil.copy(os.path.join(src, "patch.diff"), os.path.join(dst, "patch.as-delivered.diff"))
+        shutil.copy(applied, os.path.join(dst, "patch.diff"))
+        os.remove(applied)
     for f in demos:
         shutil.copy(os.path.join(src, f), os.path.join(dst, f + ".txt"))
     if os.path.exists(os.path.join(src, "notes.md")):
